@@ -22,7 +22,6 @@ RULE = ('sh: lists of 0-6 strings over an alphabet biased to quotes, backslashes
         'complement_int_list over windows around and beyond the data, all delimiter options. gzip: round trips with levels 1-9 and '
         'cross-checks with the gzip module. non-trivial: an argument that needs quoting; a list with a run >= 3 and a duplicate; '
         'a payload > 1 KiB or empty. distinct = distinct canonical JSON of the case.')
-RULE += ' Round 6: shell-quoting cases carry process history - 17000/33000 distinct arguments quoted in both styles earlier in the same process (under 1% of cases) and the same arguments rendered in the other style first (half of the cases).'
 ASSUMPTIONS = [
     'no NUL and no lone surrogates in shell arguments (cannot be passed to a process)',
     'the Microsoft rules are the documented post-2008 CRT rules (space/tab delimiters, 2n/2n+1 backslashes before a quote, "" inside quotes)',
